@@ -32,8 +32,6 @@ use air_interpreter_signatures::SignatureStore;
 use std::collections::HashMap;
 use std::rc::Rc;
 
-const CANNOT_HAPPEN_IN_VERIFIED_CID_STORE: &str = "cannot happen in a checked CID store";
-
 /// An util for verificating particular data's signatures.
 pub struct DataVerifier<'data> {
     // a map from peer_id to peer's info (public key, signature, CIDS)
@@ -164,14 +162,16 @@ fn collect_peers_cids_from_trace<'data>(
                 let cid = call.get_cid();
                 if let Some(cid) = cid {
                     // TODO refactor
+                    // CidInfo::verify checks store-to-store references only,
+                    // a trace of a malicious peer can refer to anything
                     let service_result = cid_info
                         .service_result_store
                         .get(cid)
-                        .expect(CANNOT_HAPPEN_IN_VERIFIED_CID_STORE);
+                        .ok_or_else(|| cid_not_found(cid, "service result"))?;
                     let tetraplet = cid_info
                         .tetraplet_store
                         .get(&service_result.tetraplet_cid)
-                        .expect(CANNOT_HAPPEN_IN_VERIFIED_CID_STORE);
+                        .ok_or_else(|| cid_not_found(&service_result.tetraplet_cid, "tetraplet"))?;
 
                     let peer_pk = tetraplet.peer_pk.as_str();
                     try_push_cid(grouped_cids, peer_pk, cid)?;
@@ -182,11 +182,11 @@ fn collect_peers_cids_from_trace<'data>(
                 let canon_result = cid_info
                     .canon_result_store
                     .get(cid)
-                    .expect(CANNOT_HAPPEN_IN_VERIFIED_CID_STORE);
+                    .ok_or_else(|| cid_not_found(cid, "canon result"))?;
                 let tetraplet = cid_info
                     .tetraplet_store
                     .get(&canon_result.tetraplet)
-                    .expect(CANNOT_HAPPEN_IN_VERIFIED_CID_STORE);
+                    .ok_or_else(|| cid_not_found(&canon_result.tetraplet, "tetraplet"))?;
 
                 let peer_pk = tetraplet.peer_pk.as_str();
                 try_push_cid(grouped_cids, peer_pk, cid)?;
@@ -195,6 +195,13 @@ fn collect_peers_cids_from_trace<'data>(
         };
     }
     Ok(())
+}
+
+fn cid_not_found<T>(cid: &CID<T>, store: &'static str) -> DataVerifierError {
+    DataVerifierError::CidNotFound {
+        cid: cid.get_inner(),
+        store,
+    }
 }
 
 fn try_push_cid<T>(
